@@ -9,3 +9,4 @@ import Tibc.Expect.Keys
 #print axioms Tibc.C01.recv_accepted_was_sent
 #print axioms Tibc.C01.commitment_key_injective
 #print axioms Tibc.C01.commitment_key_family_disjoint
+#print axioms Tibc.C01.recv_needs_proof_of_own_key
